@@ -24,6 +24,10 @@ class WrapDict(OrderedDict):
         for k, v in self._mine.items():
             yield k, v
 
+    def values(self):
+        for k, v in self.items():
+            yield v
+
     def keys(self):
         for k in self._other.keys():
             if k not in self._mine:
